@@ -306,6 +306,30 @@ func (g *pkgGen) generate(pkgLevel bool) (src string, queries []query) {
 				default:
 					f.names = []string{g.fname("F")}
 					f.typ = []string{"int", "string", "[]byte", "map[string]int", "*int", "error", "any", "time.Time", "sync.Mutex", "c16opaque", "*c16opaque", "time.Duration", "c16nothing", "P"}[r.Intn(13)]
+					if len(g.ts) > 0 && r.Intn(4) == 0 {
+						// a field whose type is (built from) an earlier type of the same package: by value, pointer, slice or
+						// map value; generic types instantiated with a basic type or with the enclosing type parameter
+						e := g.ts[r.Intn(len(g.ts))]
+						tn := e.name
+						if e.kind == "generic-struct" {
+							arg := []string{"string", "int", "time.Duration"}[r.Intn(3)]
+							if t.kind == "generic-struct" && r.Intn(2) == 0 {
+								arg = "P"
+							}
+							tn += "[" + arg + "]"
+						}
+						form := r.Intn(4)
+						f.typ = []string{"", "*", "[]", "map[string]"}[form] + tn
+						f.names = []string{g.fname("Ref")}
+						f.listed = !(form == 0 && (e.kind == "struct" || e.kind == "generic-struct") && len(e.fields) == 0)
+						f.doc = genDoc(r, f.names)
+						f.doc.write(&b, "\t")
+						fmt.Fprintf(&b, "\t%s %s\n", f.names[0], f.typ)
+						hasExported = true
+						t.fields = append(t.fields, f)
+						prevTrailing = false
+						continue
+					}
 					if f.typ == "c16nothing" {
 						// a field whose (named) type is an empty struct is not listed
 						f.listed = false
